@@ -28,6 +28,11 @@ package llm
 //@   ensures 0 <= result.Layers && result.Layers <= f.KV().BlockCount() + 1
 //@   ensures opts.NumGPU >= 0 ==> result.Layers <= opts.NumGPU
 //@   ensures result.TotalSize >= result.VRAMSize
+// "reports a per-GPU split that sums to the layer count": the split string is printed from
+// layerCounts (one strconv.Itoa per GPU); at that point the counts add up to the number of
+// layers placed, which is what Layers reports (or 0 layers are reported)
+//@   assert-at call strings.Join #1 : sum(layerCounts) == layerCount && len(layerCounts) == len(gpus)
+//@   assert-at return #3 : estimate.Layers == layerCount && sum(layerCounts) == layerCount
 //@
 //@   loop 2 invariant projectorWeights <= (rangeindex + 1) * (1 << 40) && projectorGraph <= (rangeindex + 1) * (1 << 40)
 //@   loop 3 invariant kvTotal <= (rangeindex + 1) * (1 << 34)
@@ -43,11 +48,15 @@ package llm
 //@   loop 5 invariant forall k int :: 0 <= k && k < len(gpus) ==> gpuAllocations[k] == 0 || gpuAllocations[k] + max(graphPartialOffload, graphFullOffload) + overhead <= gpus[k].FreeMemory
 //@   loop 5 invariant forall k int :: 0 <= k && k < len(gpus) && layerCounts[k] > 0 ==> gpuAllocations[k] + max(graphPartialOffload, graphFullOffload) + overhead <= gpus[k].FreeMemory
 //@   loop 5 invariant 0 <= layerCount && layerCount <= i && (opts.NumGPU >= 0 ==> layerCount <= opts.NumGPU)
+//@   loop 5 invariant sum(layerCounts) == layerCount
+//@   loop 5 invariant forall k int :: 0 <= k && k < len(layerCounts) ==> 0 <= layerCounts[k] && layerCounts[k] <= layerCount
 //@
 //@   loop 6 invariant j == len(gpusWithSpace) && layerSize < (1 << 41)
 //@   loop 6 invariant forall w int :: 0 <= w && w < len(gpusWithSpace) ==> 0 <= gpusWithSpace[w].i && gpusWithSpace[w].i < len(gpus) && gpusWithSpace[w].g == &gpus[gpusWithSpace[w].i]
 //@   loop 6 invariant forall k int :: 0 <= k && k < len(gpus) ==> gpuAllocations[k] == 0 || gpuAllocations[k] + max(graphPartialOffload, graphFullOffload) + overhead <= gpus[k].FreeMemory
 //@   loop 6 invariant forall k int :: 0 <= k && k < len(gpus) && layerCounts[k] > 0 ==> gpuAllocations[k] + max(graphPartialOffload, graphFullOffload) + overhead <= gpus[k].FreeMemory
+//@   loop 6 invariant sum(layerCounts) == layerCount
+//@   loop 6 invariant forall k int :: 0 <= k && k < len(layerCounts) ==> 0 <= layerCounts[k] && layerCounts[k] <= layerCount
 //@
 //@   loop 7 invariant layerCount <= i && overflow <= (i - layerCount) * (1 << 41) && (i <= layerCount || i <= f.KV().BlockCount()) && layerCount >= 0
 //@
@@ -55,6 +64,8 @@ package llm
 //@   loop 8 invariant forall k int :: 0 <= k && k < len(gpus) ==> gpuAllocations[k] == 0 || gpuAllocations[k] + max(graphPartialOffload, graphFullOffload) + overhead <= gpus[k].FreeMemory
 //@   loop 8 invariant forall k int :: 0 <= k && k < len(gpus) && layerCounts[k] > 0 ==> gpuAllocations[k] + max(graphPartialOffload, graphFullOffload) + overhead <= gpus[k].FreeMemory
 //@   loop 8 invariant forall w int :: 0 <= w && w < len(gpusWithSpace) ==> 0 <= gpusWithSpace[w].i && gpusWithSpace[w].i < len(gpus) && gpusWithSpace[w].g == &gpus[gpusWithSpace[w].i]
+//@   loop 8 invariant sum(layerCounts) == layerCount
+//@   loop 8 invariant forall k int :: 0 <= k && k < len(layerCounts) ==> 0 <= layerCounts[k] && layerCounts[k] <= layerCount
 //@
 //@   loop 9 invariant forall k int :: 0 <= k && k <= rangeindex ==> gpuAllocations[k] == 0 || gpuAllocations[k] + overhead <= gpus[k].FreeMemory
 //@   loop 9 invariant forall k int :: rangeindex < k && k < len(gpus) ==> gpuAllocations[k] == 0 || gpuAllocations[k] + max(graphPartialOffload, graphFullOffload) + overhead <= gpus[k].FreeMemory
